@@ -259,3 +259,88 @@ Section Perturbed.
       apply (no_positive_combo G3 G1 G2 G4 cTe dTe aTe bTe cWe dWe aWe bWe m om (e * ka) W); try lra.
   Qed.
 End Perturbed.
+
+(** * The statement on four unit points *)
+Lemma neq_eqb p q : finite p -> finite q -> ~ peq p q -> s2_Point_eqb p q = false.
+Proof.
+  intros Fp Fq N. destruct (s2_Point_eqb p q) eqn:E; [|reflexivity].
+  exfalso. apply N. now apply eqb_iff.
+Qed.
+Lemma peq_dotv p q t1 t2 t3 : peq p q -> dotv p t1 t2 t3 = dotv q t1 t2 t3.
+Proof. intros (H1 & H2 & H3). unfold dotv. now rewrite H1, H2, H3. Qed.
+
+Lemma In_index (l : list s2_Point) p : In p l -> exists i, (i < length l)%nat /\ nth i l dummy_pt = p.
+Proof. intros H. destruct (In_nth l p dummy_pt H) as (i & Hi & E). now exists i. Qed.
+
+Theorem separation_no_crossing a b c d t1 t2 t3 w1 w2 w3 :
+  unit_pt a -> unit_pt b -> unit_pt c -> unit_pt d ->
+  dotv a t1 t2 t3 <= 0 -> dotv b t1 t2 t3 <= 0 -> 0 < dotv c t1 t2 t3 -> 0 < dotv d t1 t2 t3 ->
+  0 < dotv a w1 w2 w3 -> 0 < dotv b w1 w2 w3 ->
+  shared s2_Point s2_Point_eqb a b c d = false /\ four_agree s2_Point robust_sign a b c d = false.
+Proof.
+  intros Ua Ub Uc Ud TA TB TC TD WA WB.
+  assert (Fa : finite a) by apply Ua. assert (Fb : finite b) by apply Ub.
+  assert (Fc : finite c) by apply Uc. assert (Fd : finite d) by apply Ud.
+  assert (Nac : ~ peq a c) by (intros E; rewrite (peq_dotv a c _ _ _ E) in TA; lra).
+  assert (Nad : ~ peq a d) by (intros E; rewrite (peq_dotv a d _ _ _ E) in TA; lra).
+  assert (Nbc : ~ peq b c) by (intros E; rewrite (peq_dotv b c _ _ _ E) in TB; lra).
+  assert (Nbd : ~ peq b d) by (intros E; rewrite (peq_dotv b d _ _ _ E) in TB; lra).
+  split.
+  { unfold shared. rewrite (neq_eqb a c), (neq_eqb a d), (neq_eqb b c), (neq_eqb b d); auto. }
+  destruct (four_agree s2_Point robust_sign a b c d) eqn:FA; [exfalso|reflexivity].
+  unfold four_agree in FA. cbv zeta in FA.
+  apply andb_true_iff in FA. destruct FA as [FA NZ]. apply andb_true_iff in FA. destruct FA as [FA E4].
+  apply andb_true_iff in FA. destruct FA as [E2 E3].
+  apply Z.eqb_eq in E2, E3, E4. apply negb_true_iff in NZ. apply Z.eqb_neq in NZ.
+  (* degenerate edges *)
+  destruct (s2_Point_eqb a b) eqn:Eab.
+  { apply NZ. apply (robust_sign_zero_iff a c b Ua Uc Ub). unfold identical2.
+    rewrite (eqb_sym b a Fb Fa), Eab. now rewrite !orb_true_r. }
+  destruct (s2_Point_eqb c d) eqn:Ecd.
+  { apply NZ. rewrite E2. apply (robust_sign_zero_iff c b d Uc Ub Ud). unfold identical2.
+    rewrite (eqb_sym d c Fd Fc), Ecd. now rewrite !orb_true_r. }
+  assert (Nab : ~ peq a b) by (intros E; apply (eqb_iff a b Fa Fb) in E; congruence).
+  assert (Ncd : ~ peq c d) by (intros E; apply (eqb_iff c d Fc Fd) in E; congruence).
+  (* the four signs are exact signs *)
+  assert (RS : forall p q r, unit_pt p -> unit_pt q -> unit_pt r -> ~ peq p q -> ~ peq q r -> ~ peq r p ->
+            robust_sign p q r = exact_sign p q r).
+  { intros p q r Up Uq Ur N1 N2 N3. rewrite (robust_sign_spec p q r Up Uq Ur). unfold identical2.
+    rewrite (neq_eqb p q), (neq_eqb q r), (neq_eqb r p); auto; try apply Up; try apply Uq; try apply Ur. }
+  assert (PS : forall p q, ~ peq p q -> ~ peq q p) by (intros p q N E; apply N; now apply peq_sym).
+  rewrite (RS a c b) in *; auto. rewrite (RS c b d) in E2; auto. rewrite (RS b d a) in E3; auto.
+  rewrite (RS d a c) in E4; auto.
+  (* a sorted list holding the four points *)
+  set (l := pins a (pins b (pins c [d]))).
+  assert (S1 : ssorted (pins c [d])).
+  { apply pins_sorted; [exact Fc| |simpl; split; [intros r []|exact I]].
+    intros q [<-|[]]. split; [exact Fd|exact Ncd]. }
+  assert (S2 : ssorted (pins b (pins c [d]))).
+  { apply pins_sorted; [exact Fb| |exact S1].
+    intros q Hq. apply pins_In in Hq. destruct Hq as [->|[<-|[]]]; split; auto. }
+  assert (S3 : ssorted l).
+  { apply pins_sorted; [exact Fa| |exact S2].
+    intros q Hq. apply pins_In in Hq. destruct Hq as [->|Hq]; [split; auto|].
+    apply pins_In in Hq. destruct Hq as [->|[<-|[]]]; split; auto. }
+  assert (Ia : In a l) by (apply pins_In; now left).
+  assert (Ib : In b l) by (apply pins_In; right; apply pins_In; now left).
+  assert (Ic : In c l) by (apply pins_In; right; apply pins_In; right; apply pins_In; now left).
+  assert (Id : In d l) by (apply pins_In; right; apply pins_In; right; apply pins_In; right; now left).
+  assert (Fl : forall i, (i < plen l)%nat -> finite (prow l i)).
+  { intros i Hi. unfold prow, plen in *. pose proof (nth_In l dummy_pt Hi) as H.
+    apply pins_In in H. destruct H as [->|H]; [exact Fa|].
+    apply pins_In in H. destruct H as [->|H]; [exact Fb|].
+    apply pins_In in H. destruct H as [->|[<-|[]]]; assumption. }
+  assert (Sl : forall i j, (i < j)%nat -> (j < plen l)%nat -> cmp_gt (prow l j) (prow l i) = true).
+  { intros i j Hij Hj. unfold prow, plen in *. now apply ssorted_index. }
+  destruct (In_index l a Ia) as (ia & La & Ea). destruct (In_index l b Ib) as (ib & Lb & Eb).
+  destruct (In_index l c Ic) as (ic & Lc & Ec). destruct (In_index l d Id) as (id & Ld & Ed).
+  assert (PR : forall p, peq p p) by (intros p; unfold peq; auto).
+  assert (Dab : ia <> ib) by (intros E; apply Nab; rewrite <- Ea, <- Eb, E; apply PR).
+  assert (Dac : ia <> ic) by (intros E; apply Nac; rewrite <- Ea, <- Ec, E; apply PR).
+  assert (Dad : ia <> id) by (intros E; apply Nad; rewrite <- Ea, <- Ed, E; apply PR).
+  assert (Dbc : ib <> ic) by (intros E; apply Nbc; rewrite <- Eb, <- Ec, E; apply PR).
+  assert (Dbd : ib <> id) by (intros E; apply Nbd; rewrite <- Eb, <- Ed, E; apply PR).
+  assert (Dcd : ic <> id) by (intros E; apply Ncd; rewrite <- Ec, <- Ed, E; apply PR).
+  apply (separated_not_four_agree l Fl Sl ia ib ic id La Lb Lc Ld Dab Dac Dad Dbc Dbd Dcd t1 t2 t3 w1 w2 w3);
+    unfold prow; rewrite ?Ea, ?Eb, ?Ec, ?Ed; auto.
+Qed.
